@@ -118,7 +118,10 @@ Emit == done =>
 
 E12 == <<0, 0, 0>> \o <<1>>           \* 10^12 = 1 * (10^4)^3
 PGrid(q) == {<<FromNat(k), FromNat(q)>> : k \in 0..q}
-PEdge == {<<<<1>>, E12>>, <<Sub(E12, <<1>>), E12>>}
+E6 == <<0, 100>>                      \* 10^6
+\* success probabilities next to 0 and 1, and in the band between those and the first grid point (5e-6, 9e-6: large enough for
+\* a second-order term N p^2 to matter, small enough for a first-order shortcut to look right)
+PEdge == {<<<<1>>, E12>>, <<Sub(E12, <<1>>), E12>>, <<<<9>>, E6>>, <<<<5>>, E6>>, <<Sub(E6, <<9>>), E6>>, <<<<300>>, E6>>}
 BinPQuick == PGrid(20) \cup PEdge
 BinPThorough == PGrid(100) \cup PEdge
 BinNQuick == (0..20) \cup {21, 33, 47, 64}
